@@ -22,12 +22,45 @@ def en(name, variants=("Active", "Done"), derives=SERDE):
             "variants": [{"name": v, "serde": []} for v in variants]}
 
 
-def emit(name, pl, recv="app", to=None):
+def let(v, init, ty=None):
+    """let statement of an emitting function. init: ["struct", N] | ["call", N] | ["var", w] | ["ref", init] |
+    ["other", "<rust expression text>"]; ty: declared type (projgen type tree) or None."""
+    return {"let": v, "init": list(init), "ty": ty}
+
+
+def render_init(i):
+    k = i[0]
+    if k == "struct":
+        return "%s { ..Default::default() }" % i[1]
+    if k == "call":
+        return "%s::new()" % i[1]
+    if k == "var":
+        return i[1]
+    if k == "ref":
+        return "&" + render_init(i[1])
+    return i[1]
+
+
+def render_let(s):
+    return "let %s%s = %s;" % (s["let"], ": " + pg.rust_type(s["ty"]) if s.get("ty") else "", render_init(s["init"]))
+
+
+def render_ready(case):
+    """The case with its let statements printed (tools/projgen prints strings verbatim)."""
+    c = copy.deepcopy(case)
+    for its in c["files"].values():
+        for it in its:
+            if it["kind"] == "fn":
+                it["body"] = [render_let(x) if isinstance(x, dict) and "let" in x else x for x in it.get("body", [])]
+    return c
+
+
+def emit(name, pl, recv="app", to=None, ref=False):
     """pl: ["var", n] | ["unit"] | ["str"] | ["int"] | ["bool"] | ["struct", N]"""
     k = pl[0]
     expr = {"var": lambda: pl[1], "unit": lambda: "()", "str": lambda: '"s"', "int": lambda: "1", "bool": lambda: "true",
             "struct": lambda: "%s { ..Default::default() }" % pl[1]}[k]()
-    return {"emit": name, "recv": recv, "payload": expr, "pl": list(pl), "to": to}
+    return {"emit": name, "recv": recv, "payload": ("&" if ref else "") + expr, "pl": list(pl), "to": to}
 
 
 def fn(name, params, ret=None, body=(), command=True, attr=("tauri", "command"), is_async=False):
@@ -90,7 +123,16 @@ def sx_item(it):
     if k == "enum":
         return ["enum", it["name"], is_serde(it)]
     if k == "fn":
-        emits = [[s["emit"], s.get("recv", "app"), stmt_pl(s)] for s in it.get("body", []) if isinstance(s, dict)]
+        def sx_init(i):
+            return ["ref", sx_init(i[1])] if i[0] == "ref" else (["other"] if i[0] == "other" else [i[0], i[1]])
+        emits = []
+        for s in it.get("body", []):
+            if not isinstance(s, dict):
+                continue
+            if "let" in s:
+                emits.append(["letty", s["let"], sx_ty(s["ty"])] if s.get("ty") else ["let", s["let"], sx_init(s["init"])])
+            else:
+                emits.append(["emit", [s["emit"], s.get("recv", "app"), stmt_pl(s)]])
         return ["fn", it["name"], is_command(it), [[p["name"], sx_ty(p["ty"])] for p in it.get("params", [])],
                 [sx_ty(it["ret"])] if it.get("ret") is not None else [], emits]
     return ["other"]
@@ -402,7 +444,7 @@ def strip_events(case):
     for its in c["files"].values():
         for it in its:
             if it["kind"] == "fn":
-                it["body"] = [s for s in it.get("body", []) if not isinstance(s, dict)]
+                it["body"] = [s for s in it.get("body", []) if not (isinstance(s, dict) and "emit" in s)]
     return c
 
 
@@ -434,4 +476,67 @@ def history_pairs(rng, n):
         else:
             first, second = base, base
         out.append(("history-%d/%s/%s-then-%s" % (i, kind, m1, m2), first, m1, second, m2))
+    return out
+
+
+# ----------------------------------------------------------------------------- statement sequences before an emit
+
+def rebinding_cases():
+    """Emitting functions in which the payload variable gets its type from a parameter, a typed let, a
+    struct-literal or a path-call initialiser and is then re-bound (shadowed) by 0..2 further lets -
+    initialisers that cannot be typed (method call, plain call), a reference to / copy of a typed
+    variable, another struct literal, another typed let - in every order, before it is emitted by
+    value or by reference. Every type is defined and reachable from nothing but the emit."""
+    import itertools
+    types = [st("Summary", [("detail", P("SummaryDetail"))]), st("SummaryDetail", [("n", P("i32"))]),
+             st("Digest", [("parts", P("Vec", P("DigestPart")))]), st("DigestPart", [("n", P("i32"))])]
+    origins = {
+        "param": ([("summary", P("Summary"))], []),
+        "ref-param": ([("summary", Ref(P("Summary")))], []),
+        "typed-let": ([], [let("summary", ["other", "load()"], ty=P("Summary"))]),
+        "struct-let": ([], [let("summary", ["struct", "Summary"])]),
+        "call-let": ([], [let("summary", ["call", "Summary"])]),
+    }
+    rebinds = {
+        "clone": let("summary", ["other", "summary.clone()"]),
+        "call": let("summary", ["other", "enrich(summary)"]),
+        "ref-self": let("summary", ["ref", ["var", "summary"]]),
+        "copy-other-var": let("summary", ["var", "original"]),
+        "retype-struct": let("summary", ["struct", "Digest"]),
+        "retype-typed": let("summary", ["other", "digest()"], ty=P("Digest")),
+    }
+    out = []
+    for oname, (params, pre) in origins.items():
+        seqs = [()] + [(a,) for a in rebinds] + list(itertools.permutations(rebinds, 2))
+        for seq in seqs:
+            for by_ref in (False, True):
+                if len(seq) == 2 and by_ref:
+                    continue
+                body = list(pre)
+                if "copy-other-var" in seq:
+                    body.append(let("original", ["struct", "Summary"]))
+                body += [rebinds[x] for x in seq] + [emit("summary-ready", ["var", "summary"], ref=by_ref)]
+                items = types + [fn("ping", [], None), fn("publish", [APP] + params, None, body, command=False)]
+                out.append(("rebind/%s/%s/%s" % (oname, "+".join(seq) or "none", "ref" if by_ref else "val"), project(items)))
+    return out
+
+
+# ----------------------------------------------------------------------------- directory layouts
+
+DIR_NAMES = ["dist", "node_modules", "build", "out", "gen", "vendor", "tests", "examples", "benches", "bin", ".cargo", "target2",
+             "my_target", "git", "foo.rs", "src", "lib"]
+
+
+def layout_cases():
+    """Serde types defined in module directories with common real-world names (also nested, also a
+    directory named like a file) and used from a command / an emit elsewhere."""
+    out = []
+    for d in DIR_NAMES:
+        for nest in ("src/%s/models.rs", "src/app/%s/deep/models.rs", "src/%s/%s/models.rs"):
+            rel = nest % ((d, d) if nest.count("%s") == 2 else (d,))
+            files = {"src/lib.rs": [fn("release", [("req", P("ReleaseRequest"))], P("Result", P("ReleaseInfo"), P("String"))),
+                                    fn("announce", [APP, ("n", P("ReleaseNote"))], None, [emit("release-note", ["var", "n"])], command=False)],
+                     rel: [st("ReleaseInfo", [("assets", P("Vec", P("Asset")))]), st("Asset", [("name", P("String"))]),
+                           st("ReleaseRequest", [("tag", P("String"))]), st("ReleaseNote", [("text", P("String"))])]}
+            out.append(("layout/%s" % rel, project(None, files=files)))
     return out
